@@ -150,6 +150,60 @@ def run_history(steps, hist_id):
     return n, fails
 
 
+def deep_size(root):
+    """bytes reachable from the decoder object (instance data only: no classes, modules, functions, code)"""
+    import types
+    seen = set()
+    todo = [root]
+    total = 0
+    skip = (type, types.ModuleType, types.FunctionType, types.BuiltinFunctionType, types.CodeType, types.MethodType)
+    while todo:
+        o = todo.pop()
+        if id(o) in seen or isinstance(o, skip):
+            continue
+        seen.add(id(o))
+        try:
+            total += sys.getsizeof(o)
+        except TypeError:
+            pass
+        todo.extend(gc.get_referents(o))
+    return total
+
+
+def retention_history(kind_seq):
+    """many blocks with large, pairwise different literal names and values (indexed or not, Huffman or not): what the
+    decoder holds afterwards must stay within the table bound, whatever passed through"""
+    fails = []
+    d = hpack.Decoder(1 << 30)
+    base = deep_size(d)
+    n = 0
+    for j in range(120):
+        name = (b'%06d' % j) * 3000          # 18 kB, different every time
+        val = (b'v%05d' % j) * 2000
+        pat = (0x00, 0x10, 0x40)[j % 3]
+        blk = bytes([pat]) + int_octets(len(name), 7) + name + int_octets(len(val), 7) + val
+        if j % 5 == 4:
+            e = huff_encode(name[:3000])
+            blk = bytes([0x00]) + int_octets(len(e), 7, 0x80) + e + int_octets(3, 7) + b'abc'
+        kind = kind_seq[j % len(kind_seq)]
+        obj, owner, mut = wrap(kind, blk)
+        try:
+            d.decode(obj, raw=(j % 2 == 0))
+        except HPACKDecodingError:
+            pass
+        n += 1
+        del obj, owner, mut
+    gc.collect()
+    held = deep_size(d) - base
+    ents = list(getattr(d.header_table, 'dynamic_entries', []))
+    bound = d.header_table_size + 200 * (len(ents) + 1) + 4096
+    if held > bound:
+        fails.append({'history': -1, 'step': n, 'sig': 'retained-over-table',
+                      'text': 'after %d blocks of ~30 kB the decoder retains %d octets beyond a fresh one; table size %d with %d entries allows about %d' % (
+                          n, held, d.header_table_size, len(ents), bound)})
+    return n, fails
+
+
 def main():
     seed, nh = int(sys.argv[1]), int(sys.argv[2])
     out = {'evaluations': 0, 'failures': [], 'kinds': {}}
@@ -178,6 +232,9 @@ def main():
             x['steps'] = [(k, b.hex()) for k, b in steps]
         out['failures'] += f
         hid += 1
+    n, f = retention_history(['bytes', 'bytearray', 'mv-bytes'])
+    out['evaluations'] += n
+    out['failures'] += f
     rnd = random.Random(seed)
     for _ in range(nh):
         steps = gen_history(rnd)
